@@ -2,6 +2,7 @@
 """Sensitivity: apply a patch to a scratch worktree of /repo, run the named checks against it, expect VIOLATION.
 usage: tools/mutate.py <patch> <PID>[,<PID>...] [--budget s]    (exit 0 = caught by at least one)"""
 import os, subprocess, sys, shutil
+HERE = os.path.dirname(os.path.dirname(os.path.abspath(__file__)))
 patch, pids = sys.argv[1], sys.argv[2].split(",")
 budget = "25"
 if "--budget" in sys.argv:
@@ -15,7 +16,7 @@ try:
     env = dict(os.environ, VERIF_REPO=wt)
     caught = []
     for pid in pids:
-        r = subprocess.run(["/verif/check", pid, "--budget", budget], env=env, capture_output=True, text=True, cwd="/verif")
+        r = subprocess.run([os.path.join(HERE, "check"), pid, "--budget", budget], env=env, capture_output=True, text=True, cwd=HERE)
         lines = [l for l in r.stdout.splitlines() if l.startswith(("VIOLATION", "  class", "HARNESS", "KNOWN")) or " quick:" in l]
         print("[%s] rc=%d" % (pid, r.returncode)); print("\n".join("   " + l for l in lines[:8]))
         if r.returncode == 1:
